@@ -549,7 +549,7 @@ def _case_chunk(text):
     return worker(vlib._parse_chunk_text(keep)) if keep else dict(fams={}, bad=[], samples=[])
 
 
-def map_cases(families, timeout=7200):
+def map_cases(families, timeout=7200, heap='3g'):
     """TLC with -dump on the given universes, then replay of every dumped case in parallel (like
     vlib.map_states; the target heap printed by the specification is installed before forking)"""
     global TARGET_HEAP
@@ -560,7 +560,7 @@ def map_cases(families, timeout=7200):
     scratch = tempfile.mkdtemp(prefix='glomverif_c03_')
     try:
         path = os.path.join(scratch, 'states')
-        res = vlib.run_tlc('MC_C03', cfg='MC_C03_base', timeout=timeout, heap='8g', extra=('-dump', path),
+        res = vlib.run_tlc('MC_C03', cfg='MC_C03_base', timeout=timeout, heap=heap, extra=('-dump', path),
                            constants=dict(Families=tla_set(families), Mutant='"none"'))
         vlib.tlc_must_pass(res, 'MC_C03 %s' % (families,))
         TARGET_HEAP = [j for j in res['json'] if 'targetheap' in j][0]['targetheap']
@@ -571,8 +571,8 @@ def map_cases(families, timeout=7200):
         shutil.rmtree(scratch, ignore_errors=True)
 
 
-def run_families(check, families):
-    res, results = map_cases(families)
+def run_families(check, families, heap='3g'):
+    res, results = map_cases(families, heap=heap)
     check.add_tlc(res, 'MC_C03 %s' % ' '.join(families))
     per = {}
     for r in results:
@@ -603,7 +603,7 @@ def main(tier, seed):
     SECOND_PASS_EVERY = 4 if tier == 'quick' else 1
     check = vlib.Check(PROP, tier, seed)
     t0 = time.time()
-    run_families(check, FAMILIES[tier])
+    run_families(check, FAMILIES[tier], heap='3g' if tier == 'quick' else '6g')
     check.extra['wall_spec_to_code_s'] = round(time.time() - t0, 1)
     t0 = time.time()
     rows = record(check, {'quick': 6000, 'thorough': 40000}[tier], seed)
